@@ -1017,6 +1017,115 @@ def _self_mutations(fi) -> List[Tuple[str, int]]:
 
 
 # ======================================================================= X8
+def X9(ctx: Ctx) -> RuleResult:
+    r = RuleResult('X9', 'attrs validators are never switched off: no use of attrs.validators.disabled() / set_disabled() / evolve-free construction paths (__new__, object.__init__) in the package')
+    n = 0
+    banned = {'disabled', 'set_disabled'}
+    for mod in ctx.model.modules.values():
+        aliases = {local for local, (m, attr) in mod.imports.items() if attr in banned and m.endswith('validators')}
+        for node in ast.walk(mod.tree):
+            n += isinstance(node, ast.Call)
+            if isinstance(node, ast.Call):
+                f = node.func
+                name = f.attr if isinstance(f, ast.Attribute) else f.id if isinstance(f, ast.Name) else None
+                src = ast.unparse(f)
+                if (name in banned and 'validators' in src) or (isinstance(f, ast.Name) and f.id in aliases):
+                    fi = None
+                    for cand in ctx.model.all_functions():
+                        if cand.module is mod and cand.node.lineno <= node.lineno <= (cand.node.end_lineno or cand.node.lineno):
+                            fi = cand
+                    r.fail(f'{fi.qualname if fi else mod.name}:validators-off', f'{src}() switches the attrs validators off: nodes built meanwhile are not type-checked, sanity-checked or narrowed', f'{mod.relpath}:{node.lineno}')
+        for local, (m, attr) in mod.imports.items():
+            if attr in banned and m.endswith('validators'):
+                r.notes.append(f'{mod.relpath} imports {m}.{attr}')
+    r.counts['call sites scanned'] = n
+    # fixture: the pattern must be recognised
+    fx = ast.parse('from attrs.validators import disabled\nwith disabled():\n    pass\n')
+    hit = any(isinstance(x, ast.Call) and isinstance(x.func, ast.Name) and x.func.id == 'disabled' for x in ast.walk(fx))
+    if not hit:
+        raise AnalysisError('X9', 'fixture not matched')
+    if not r.findings:
+        r.ok('no validator switch in the package')
+    return r
+
+
+X10_TOTAL_MATH = {'isinf', 'isnan', 'isfinite', 'degrees', 'radians', 'atan', 'atan2', 'fabs', 'copysign', 'hypot', 'prod', 'fsum', 'trunc_total'}
+
+
+def X10(ctx: Ctx) -> RuleResult:
+    r = RuleResult('X10', 'constant folding: every call of a partial Python function (int/float on a literal value, math.sqrt/asin/sin/ceil/..., which raise ValueError or OverflowError outside their domain) in the simplifier is inside a try that keeps those errors from escaping simplify()')
+    mod = ctx.model.module('hpl.rewrite', 'X10')
+    lit = ctx.model.cls('HplLiteral', 'X10')
+    units: List[FunctionInfo] = list(mod.functions.values()) + [m for m in lit.methods.values() if m.kind == 'classmethod']
+    by_name = dict(mod.functions)   # every name a function is known under (a renamed anchor keeps its recorded name too)
+    # reachable from simplify()
+    reach = {'simplify'}
+    todo = ['simplify']
+    while todo:
+        f0 = by_name.get(todo.pop())
+        if f0 is None:
+            continue
+        for x in ast.walk(f0.node):
+            if isinstance(x, ast.Name) and x.id in by_name and by_name[x.id].name not in reach:
+                reach.add(by_name[x.id].name)
+                todo.append(x.id)
+    sites: Dict[str, List[Tuple[FunctionInfo, ast.Call]]] = {}
+    for f0 in units:
+        for x in ast.walk(f0.node):
+            if isinstance(x, ast.Call) and isinstance(x.func, ast.Name) and x.func.id in by_name:
+                sites.setdefault(by_name[x.func.id].name, []).append((f0, x))
+            if isinstance(x, ast.Call) and isinstance(x.func, ast.Attribute) and ast.unparse(x.func.value) == 'HplLiteral' and x.func.attr in lit.methods:
+                sites.setdefault('HplLiteral.' + x.func.attr, []).append((f0, x))
+
+    def handled(f0: FunctionInfo, node: ast.AST) -> bool:
+        for t in ast.walk(f0.node):
+            if isinstance(t, ast.Try) and any(node is y for b in t.body for y in ast.walk(b)):
+                names: Set[str] = set()
+                for h in t.handlers:
+                    if h.type is None:
+                        names.add('BaseException')
+                    else:
+                        names.update(ast.unparse(e).split('.')[-1] for e in (h.type.elts if isinstance(h.type, ast.Tuple) else [h.type]))
+                if names & {'Exception', 'BaseException'} or ({'ValueError'} <= names and names & {'OverflowError', 'ArithmeticError'}):
+                    return True
+        return False
+
+    def guarded(f0: FunctionInfo, node: ast.AST, depth: int = 0, seen=None) -> bool:
+        seen = seen or set()
+        if handled(f0, node):
+            return True
+        key = f0.qualname
+        if key in seen or depth > 6 or f0.name == 'simplify':
+            return False
+        seen = seen | {key}
+        name = f0.name if f0.cls is None else f'{f0.cls.name}.{f0.name}'
+        callers = [(f1, c) for f1, c in sites.get(name, []) if f1.cls is not None or f1.name in reach]
+        return bool(callers) and all(guarded(f1, c, depth + 1, seen) for f1, c in callers)
+    n = 0
+    for f0 in units:
+        if f0.cls is None and f0.name not in reach:
+            continue
+        for x in ast.walk(f0.node):
+            if not isinstance(x, ast.Call):
+                continue
+            fn = ast.unparse(x.func)
+            partial = None
+            if fn.startswith('math.') and fn.split('.')[1] not in X10_TOTAL_MATH:
+                partial = fn
+            elif fn in ('int', 'float') and x.args and not isinstance(x.args[0], ast.Constant) and not (isinstance(x.args[0], ast.Call) and ast.unparse(x.args[0].func) == 'len'):
+                partial = fn
+            if partial is None:
+                continue
+            n += 1
+            key = f'{f0.qualname}:{partial}'
+            if guarded(f0, x):
+                r.ok(f'{key}: ValueError / OverflowError cannot escape')
+            else:
+                r.fail(key, f'{partial}({ast.unparse(x.args[0])[:40] if x.args else ""}) folds a literal with a partial Python function and nothing catches its ValueError / OverflowError: simplify() raises on a valid expression such as {partial.split(".")[-1]}(INF)', f'{f0.module.relpath}:{x.lineno}')
+    r.floor('partial folding sites', n, 10)
+    return r
+
+
 def X8(ctx: Ctx) -> RuleResult:
     r = RuleResult('X8', 'mapping iteration: `for a, b in M` over a Mapping-typed value must use .items()')
     n = 0
@@ -1065,7 +1174,7 @@ def _is_mapping_expr(ctx: Ctx, fi: FunctionInfo, e: ast.expr) -> bool:
     return False
 
 
-RULES = {'X1': X1, 'X2': X2, 'X3a': X3a, 'X3b': X3b, 'X4': X4, 'X5': X5, 'X5r': X5r, 'X6': X6, 'X8': X8}
+RULES = {'X1': X1, 'X2': X2, 'X3a': X3a, 'X3b': X3b, 'X4': X4, 'X5': X5, 'X5r': X5r, 'X6': X6, 'X8': X8, 'X9': X9, 'X10': X10}
 
 
 # ====================================================================== X3c
